@@ -496,7 +496,9 @@ fn tally_step(pre: usize) {
     }
     let code: i32 = kani::any();
     let before = [count_of(&q, codes[0]), count_of(&q, codes[1]), count_of(&q, codes[2]), count_of(&q, code)];
-    q.error(ErrorSpecific { code, description: String::new() });
+    // replies with one code are one tally whatever free-text description each node attaches
+    let other_text: bool = kani::any();
+    q.error(ErrorSpecific { code, description: if other_text { String::from("x") } else { String::new() } });
     let n = q.errors.len();
     let known = (pre > 0 && code == codes[0]) || (pre > 1 && code == codes[1]) || (pre > 2 && code == codes[2]);
     assert!(n == if known { pre } else { pre + 1 }, "C08.O1e one tally entry per distinct error code");
@@ -527,7 +529,7 @@ fn tally_step(pre: usize) {
 //@ cap: 800
 //@ standins: tracing
 //@ also: C05 C17
-//@ desc: error tally step (inductive): from any tally of 2 distinct error codes ordered by count, one more error reply with any i32 code leaves one entry per code, counts exactly that reply, keeps the other counts, keeps the order highest-count-first (most_common_error reads the head) and never panics -- including a later-seen code overtaking the head
+//@ desc: error tally step (inductive): from any tally of 2 distinct error codes ordered by count, one more error reply with any i32 code (and the same or another free-text description) leaves one entry per code, counts exactly that reply, keeps the other counts, keeps the order highest-count-first (most_common_error reads the head) and never panics -- including a later-seen code overtaking the head
 //@ bounds: 2 pre-existing tallies with symbolic distinct i32 codes and symbolic counts (ordered, < 1000); 1 symbolic reply; unwind 6
 //@ inv: errors has one entry per code, ordered by count descending
 //@ stubs: none
